@@ -37,7 +37,8 @@ type SynthStats struct {
 	Renames, Deletes, Recreates, MaxChain, IntoSub, OutOfSub, FullPath, Brace, RenameBack int
 }
 
-var synthAuthors = []string{"Ann Lee", "dev42", "R2 D2", "Phodal Huang", "José Álvarez", "王小明", "bob", "Zoe Q"}
+var synthAuthors = []string{"Ann Lee", "dev42", "R2 D2", "Phodal Huang", "José Álvarez", "王小明", "bob", "Zoe Q",
+	"Carl von Ossietzky", "m.k", "Ada L", "team-bot", "Ng Wei", "Olu 7"}
 var synthDirs = []string{"", "src", "src/main", "docs", "pkg/util", "cmd"}
 var synthSubs = []string{"sub", "internal", "v2"}
 var synthSubjects = []string{"update %s", "Merge pull request #7 from %s", "fix typo in %s", "WIP %s", "bump version (%s)"}
